@@ -24,6 +24,65 @@ def _call_method(cls):
     return cls.methods.get("__call__")
 
 
+def _inl(m, e):
+    return unparse(inline_locals(m, e)) if e is not None else None
+
+
+def _test_call(m):
+    """The single `test(metric, threshold, dof)` call of a detector and the CFG node evaluating it."""
+    calls = [c for c in ast.walk(m.node) if isinstance(c, ast.Call) and unparse(c.func) == "test"]
+    require(len(calls) == 1 and len(calls[0].args) == 3, "test(...) is not called exactly once with three arguments", m.node)
+    return calls[0]
+
+
+def _eval_node(m, cfg, expr_root, needle):
+    """CFG node at which sub-expression text ``needle`` of the (local-defined) expression is evaluated: the
+    statement defining the local that contains it, or the statement containing ``expr_root`` itself."""
+    defs = single_defs(m.node)
+    work = [expr_root]
+    seen = set()
+    while work:
+        e = work.pop()
+        for n in ast.walk(e):
+            if isinstance(n, ast.Name) and n.id in defs and n.id not in seen and defs[n.id] is not None:
+                seen.add(n.id)
+                if needle in unparse(defs[n.id]):
+                    return cfg.node_of(defs[n.id])
+                work.append(defs[n.id])
+    return cfg.node_of(expr_root)
+
+
+def _running_total(sl, ms, cfg, field, dim_app_node, bad):
+    """Accept `dof = self.<field>` when <field> is an exact running total of the window: += the new dimension on
+    every call, and -= the oldest (`self.dim_list[0]`) when the window is full, *before* the append evicts it."""
+    init = sl.methods.get("__init__")
+    ia = {unparse(n.targets[0]): unparse(n.value) for n in walk_no_nested(init.node) if isinstance(n, ast.Assign)}
+    if ia.get(f"self.{field}") not in ("0", "0.0"):
+        bad.append(f"running total self.{field} does not start at zero")
+    adds = [n for n in cfg.nodes if n.kind == "stmt" and isinstance(n.ast, ast.AugAssign) and unparse(n.ast.target) == f"self.{field}" and isinstance(n.ast.op, ast.Add)]
+    subs = [n for n in cfg.nodes if n.kind == "stmt" and isinstance(n.ast, ast.AugAssign) and unparse(n.ast.target) == f"self.{field}" and isinstance(n.ast.op, ast.Sub)]
+    others = [n for n in cfg.nodes if n.kind == "stmt" and isinstance(n.ast, ast.Assign) and unparse(n.ast.targets[0]) == f"self.{field}"]
+    if len(adds) != 1 or len(subs) != 1 or others:
+        bad.append(f"dof = self.{field} is neither sum(self.dim_list) nor a recognisable running total")
+        return
+    if _inl(ms, adds[0].ast.value) != "residual.shape[0]" or cfg.control_conditions(adds[0].id):
+        bad.append(f"the running total is not increased by the new dimension on every call (`{unparse(adds[0].ast)}`)")
+    if unparse(subs[0].ast.value) != "self.dim_list[0]":
+        bad.append(f"the running total is decreased by `{unparse(subs[0].ast.value)}`, not by the oldest dimension self.dim_list[0]")
+    conds = [(unparse(cfg.nodes[c].ast), lab) for c, lab in cfg.control_conditions(subs[0].id)]
+    full = [("len(self.dim_list) == self.window_size", True), ("len(self.dim_list) == self.dim_list.maxlen", True), ("len(self.nis_list) == self.window_size", True), ("len(self.nis_list) == self.nis_list.maxlen", True), ("len(self.dim_list) >= self.window_size", True)]
+    if not any(c in full for c in conds):
+        bad.append(f"the oldest dimension is subtracted under {conds}, not exactly when the window is full")
+    if dim_app_node is not None:
+        # the subtraction must read dim_list[0] before the append of a full deque evicts it
+        if subs[0].id in cfg.reachable(dim_app_node.id):
+            bad.append("the oldest dimension is read after `self.dim_list.append(...)`: the append to a full deque has already evicted it, so the second-oldest is subtracted and the first dimension ever seen stays in the total for good")
+        if "nis_list" in " ".join(c for c, _ in conds):
+            na = [n for n in cfg.nodes if n.kind == "stmt" and isinstance(n.ast, ast.Expr) and isinstance(n.ast.value, ast.Call) and call_name(n.ast.value) == "append" and unparse(n.ast.value.func.value) == "self.nis_list"]
+            if na and subs[0].id in cfg.reachable(na[0].id):
+                bad.append("the full-window test reads the NIS window after it was appended to")
+
+
 def rule_r1(chk, p, t):
     r = chk.rule(
         "C17.R1",
@@ -54,8 +113,6 @@ def rule_r1(chk, p, t):
                 args = [unparse(a) for a in v.operand.args]
                 if len(args) != 3 or args[0] != "self.metric" or args[1] != "self.threshold":
                     bad.append(f"test is called with {args}: expected (self.metric, self.threshold, dof)")
-                elif args[2] != "dof":
-                    bad.append(f"degrees of freedom argument is `{args[2]}`")
                 if not sets or not cfg.must_pass(rt.id, via_nodes=[s.id for s in sets]):
                     bad.append("a path returns without setting self.metric")
             # threshold is the configured one
@@ -99,14 +156,13 @@ def rule_r2(chk, p, t):
     m = _call_method(std)
 
     def f1():
-        defs = single_defs(m.node)
-        asg = {unparse(n.targets[0]): unparse(n.value) for n in walk_no_nested(m.node) if isinstance(n, ast.Assign)}
-        ok = asg.get("self.metric") == QF and asg.get("dof") == "residual.shape[0]"
-        if ok:
+        mv = [n.value for n in walk_no_nested(m.node) if isinstance(n, ast.Assign) and unparse(n.targets[0]) == "self.metric"]
+        metric = _inl(m, mv[0]) if len(mv) == 1 else None
+        dof = _inl(m, _test_call(m).args[2])
+        if metric == QF and dof == "residual.shape[0]":
             r.ok(std.qualname, "metric = NIS of the current innovation, dof = its dimension", m.loc())
         else:
-            r.violation(std.qualname, f"standard:{asg.get('self.metric')}:{asg.get('dof')}", f"StandardNis: metric = `{asg.get('self.metric')}`, dof = `{asg.get('dof')}`", m.loc())
-        _ = defs
+            r.violation(std.qualname, f"standard:{metric}:{dof}", f"StandardNis: metric = `{metric}`, dof = `{dof}`", m.loc())
 
     r.guard(std.qualname, f1)
     sl = p.cls(f"{MD}.SlidingNis")
@@ -117,8 +173,11 @@ def rule_r2(chk, p, t):
         apps = {}
         for n in cfg.nodes:
             if n.kind == "stmt" and isinstance(n.ast, ast.Expr) and isinstance(n.ast.value, ast.Call) and call_name(n.ast.value) == "append":
-                apps[unparse(n.ast.value.func.value)] = (n, unparse(n.ast.value.args[0]))
-        asg = {unparse(n.targets[0]): unparse(n.value) for n in walk_no_nested(ms.node) if isinstance(n, ast.Assign)}
+                apps[unparse(n.ast.value.func.value)] = (n, _inl(ms, n.ast.value.args[0]))
+        mv = [n for n in walk_no_nested(ms.node) if isinstance(n, ast.Assign) and unparse(n.targets[0]) == "self.metric"]
+        tc = _test_call(ms)
+        dof_txt = _inl(ms, tc.args[2])
+        metric_txt = _inl(ms, mv[0].value) if len(mv) == 1 else None
         bad = []
         if apps.get("self.nis_list", (None, None))[1] != QF:
             bad.append(f"NIS window receives `{apps.get('self.nis_list', (None, None))[1]}`")
@@ -130,10 +189,16 @@ def rule_r2(chk, p, t):
             for rt in [n for n in cfg.nodes if n.kind == "return"]:
                 if not (cfg.must_pass(rt.id, via_nodes=[a.id]) and cfg.must_pass(rt.id, via_nodes=[b.id])):
                     bad.append("the two windows are not both updated on every path")
-        if asg.get("self.metric") != "sum(self.nis_list)":
-            bad.append(f"metric = `{asg.get('self.metric')}`")
-        if asg.get("dof") != "sum(self.dim_list)":
-            bad.append(f"dof = `{asg.get('dof')}`")
+        if metric_txt != "sum(self.nis_list)":
+            bad.append(f"metric = `{metric_txt}`")
+        running = None
+        if dof_txt != "sum(self.dim_list)":
+            e = inline_locals(ms, tc.args[2])
+            if isinstance(e, ast.Attribute) and isinstance(e.value, ast.Name) and e.value.id == "self":
+                running = e.attr
+                _running_total(sl, ms, cfg, running, apps.get("self.dim_list", (None, None))[0], bad)
+            else:
+                bad.append(f"dof = `{dof_txt}`")
         # metric computed after the append
         init = sl.methods.get("__init__")
         ia = {unparse(n.targets[0]): unparse(n.value) for n in walk_no_nested(init.node) if isinstance(n, ast.Assign)}
@@ -141,11 +206,14 @@ def rule_r2(chk, p, t):
             if ia.get(f) != "deque(maxlen=window_size)":
                 bad.append(f"{f} = `{ia.get(f)}` (expected deque(maxlen=window_size))")
         order_ok = True
-        for n in walk_no_nested(ms.node):
-            if isinstance(n, ast.Assign) and unparse(n.targets[0]) in ("self.metric", "dof"):
-                for k in ("self.nis_list", "self.dim_list"):
-                    if k in apps and apps[k][0].lineno > n.lineno:
-                        order_ok = False
+        if mv and "self.nis_list" in apps:
+            en = _eval_node(ms, cfg, mv[0].value, "self.nis_list")
+            if en.id not in cfg.reachable(apps["self.nis_list"][0].id):
+                order_ok = False
+        if running is None and "self.dim_list" in apps:
+            en = _eval_node(ms, cfg, tc.args[2], "self.dim_list")
+            if en.id not in cfg.reachable(apps["self.dim_list"][0].id):
+                order_ok = False
         if not order_ok:
             bad.append("the statistic is computed before the current step is appended")
         if bad:
@@ -174,10 +242,17 @@ def rule_r2(chk, p, t):
             bad.append(f"recursion `{unparse(asg.get('self.prior_nis')) if asg.get('self.prior_nis') is not None else None}`")
         if not eq("self.metric", "self.prior_nis * (1 + self.delta)"):
             bad.append(f"metric `{unparse(asg.get('self.metric')) if asg.get('self.metric') is not None else None}`")
-        if not eq("dof", "avg_dim * (1 + self.delta) / (1 - self.delta)"):
-            bad.append(f"dof `{unparse(asg.get('dof')) if asg.get('dof') is not None else None}`")
-        if not (eq("self.total+=", "1") and eq("self.total_dim+=", "dim") and eq("avg_dim", "self.total_dim / self.total") and eq("dim", "residual.shape[0]")):
+        dof_e = inline_locals(mf, _test_call(mf).args[2])
+        if canon(dof_e) != canon(ast.parse("self.total_dim / self.total * (1 + self.delta) / (1 - self.delta)", mode="eval").body):
+            bad.append(f"dof `{unparse(dof_e)}`")
+        td = asg.get("self.total_dim+=")
+        if not (eq("self.total+=", "1") and td is not None and _inl(mf, td) == "residual.shape[0]"):
             bad.append("running mean of the measurement dimension")
+        cfgf = cfg_of(mf)
+        en = _eval_node(mf, cfgf, _test_call(mf).args[2], "self.total")
+        for n in cfgf.nodes:
+            if n.kind == "stmt" and isinstance(n.ast, ast.AugAssign) and unparse(n.ast.target) in ("self.total", "self.total_dim") and en.id not in cfgf.reachable(n.id):
+                bad.append("the mean dimension is read before the current step is counted")
         if "self.prior_nis" in order and "self.metric" in order and order.index("self.prior_nis") > order.index("self.metric"):
             bad.append("metric computed before the recursion is advanced")
         init = fm.methods.get("__init__")
